@@ -121,9 +121,13 @@ PROPS['C06'] = dict(
                 quick=dict(MaxOps=3, MaxMerges=2, MaxRestarts=2, Limit=2), thorough=dict(MaxOps=5, MaxMerges=2, MaxRestarts=2, Limit=2))],
     traces=[dict(profile='merge', spec='EngineTrace',
                  enforce=['res', 'bres', 'open', 'vals', 'keys', 'fold', 'scan', 'index', 'nomdir', 'adopted', 'statkeys'],
-                 quick_seeds=1, thorough_seeds=2)],
+                 quick_seeds=1, thorough_seeds=2),
+            # every (scan step, client call) interleaving of a small database, forced with a blocking hook
+            dict(profile='mergerace', spec='EngineTrace',
+                 enforce=['res', 'bres', 'open', 'vals', 'keys', 'fold', 'scan', 'index', 'nomdir', 'statkeys'],
+                 quick_seeds=1, thorough_seeds=1, deterministic=False)],
     assumptions=E_ASSUME + ['Merge may return an error (then only "the mapping is unchanged" is demanded); the evidence reports how many merges succeeded',
-                            'racing writers during the merge scan are covered by the model (client calls interleave with MergeScan steps) and by C08\'s concurrent driver, not by this sequential profile'],
+                            'racing writers: the model interleaves client calls with MergeScan steps; profile mergerace forces every (scan step i, client call) pair of small databases on the engine with a blocking hook (the adopted-directory minimality check is not applied there: a record rewritten before the racing write is legitimately superseded)'],
 )
 
 PROPS['C18'] = dict(
